@@ -6,7 +6,7 @@ import json, os, subprocess, sys
 ROOT = os.path.dirname(os.path.dirname(os.path.abspath(__file__)))
 EXTRA = {'C14A': ['C15'], 'C15A': ['C14'], 'C06A': ['C17'], 'C17B': ['C06'], 'C09B': ['C16'], 'C16A': ['C09'], 'C04B': ['C01'],
          'C01B': ['C04'], 'C13A': ['C08'], 'C07B': ['C03'], 'C09A': ['C13'], 'C14C': ['C15'], 'C13D': ['C08'], 'C08C': ['C13'], 'C03C': ['C13'], 'C13C': ['C03'],
-         'C07D': ['C03'], 'C16D': ['C10'], 'C10D': ['C16'], 'C08J': ['C03'], 'C16I': ['C03'], 'C13J': ['C10'], 'C12K': ['C14'], 'C01I': ['C14'], 'C01M': ['C13'], 'C09M': ['C10'], 'C09N': ['C08'], 'C11N': ['C15'], 'C17M': ['C06'], 'C01N': ['C12'], 'C12N': ['C01', 'C14'], 'C10M': ['C13'], 'C09O': ['C15'], 'C16O': ['C10'], 'C16P': ['C08', 'C01'], 'C10O': ['C14'], 'C14P': ['C01'], 'C01P': ['C14'], 'C15O': ['C14'], 'C16Q': ['C10']}
+         'C07D': ['C03'], 'C16D': ['C10'], 'C10D': ['C16'], 'C08J': ['C03'], 'C16I': ['C03'], 'C13J': ['C10'], 'C12K': ['C14'], 'C01I': ['C14'], 'C01M': ['C13'], 'C09M': ['C10'], 'C09N': ['C08'], 'C11N': ['C15'], 'C17M': ['C06'], 'C01N': ['C12'], 'C12N': ['C01', 'C14'], 'C10M': ['C13'], 'C09O': ['C15'], 'C16O': ['C10'], 'C16P': ['C08', 'C01'], 'C10O': ['C14'], 'C14P': ['C01'], 'C01P': ['C14'], 'C15O': ['C14'], 'C16Q': ['C10'], 'C04Q': ['C01']}
 
 
 def sh(cmd, **kw):
